@@ -109,6 +109,14 @@ def discharge(ob, tier, timeout, extra=()):
                 elif res['verdict'] != r['verdict']:
                     return dict(verdict='disagreement', solver=None, seconds=0.0, log=logs)
         if res is None:
+            # nobody answered within the budget (a loaded machine): one patient retry before the obligation is left undecided
+            for s in order:
+                r = solve.check(asserts, solvers=(s,), timeout=timeout * 6)
+                logs.extend(r['log'])
+                if r['verdict'] in ('sat', 'unsat'):
+                    res = r
+                    break
+        if res is None:
             return dict(verdict=logs[-1][1] if logs else 'error', solver=None,
                         seconds=sum(x[2] for x in logs), log=logs)
         return dict(verdict=res['verdict'], solver=res['solver'], seconds=res['seconds'], log=logs)
